@@ -7,7 +7,8 @@ single code points, and each emoji followed by each of the five skin-tone modifi
 points) x {lower, UPPER, Title} x contexts through `recognize_boolean`, with the property itself as oracle
 (one entity, exact span, polarity, score in [0,1]); neutral strings -> nothing; both polarities -> one listed entity.
 Every pipeline query is also answered by the model (`bool.rec`) and compared — span, text, value AND the reported
-score (the model says: the parser's default 0.0, `RTV.Choice.parserScore`)."""
+score (`RTV.Choice.parserScore`: the extractor's `top_score` as an exact fraction, compared within 1e-9 — or, on a
+tree before findings/specs-fields/boolean-score-from-extractor.diff, the parser's default 0.0; the check probes which)."""
 import itertools
 import re
 
@@ -18,10 +19,10 @@ PROP = 'C20'
 LEVEL = 'proof'
 PROPS_MODULES = ['RTV.Props.C20']
 GEN = ['chartables', 'regexes', 'emojitable']
-# not listed on purpose: `reported_score_is_parser_default` (holds by the shape of the code: the parser hands on a
-# constructor default; its tie is the `bool.rec` correspondence below, which compares the reported score)
+# not listed on purpose: `prefix_reported_score_is_parser_default` (held by the shape of the code before the score fix)
 REQUIRED_THEOREMS = ['alts_polarity', 'alts_listed', 'alts_complete', 'no_match_nothing', 'neutral_nothing_sample',
                      'both_polarities_one_entity', 'both_polarities_one_entity_all',
+                     'reported_score_unit_interval', 'reported_score_unit_interval_any',
                      'score_unit_interval', 'same_polarity_one_entity',
                      'repeated_expression_one_entity', 'rewrite_true_regex', 'prefix_rewrite_loses_thumbs_up',
                      'prefix_first_occurrence_span', 'prefix_matchValue_can_exceed_one', 'prefix_not_ok_not_sure_raised']
@@ -154,16 +155,21 @@ def fmt_rec(rs):
                                         fmt_score(r.resolution.get('score'))) for r in rs)
 
 
-def model_rec(line):
-    """the driver's `bool.rec` answer with the score fraction `num/den` as the float's repr (as `fmt_rec`)"""
-    if line.startswith('err') or not line:
-        return line
-    out = []
-    for part in line.split(';'):
-        head, sc = part.rsplit(':', 1)
-        n, d = sc.split('/')
-        out.append('%s:%s' % (head, repr(int(n) / int(d)) if int(d) else 'bad:' + sc))
-    return ';'.join(out)
+def same_rec(out, m):
+    """`fmt_rec` of the implementation against the driver's `bool.rec` answer: span, text and value equal, the reported
+    score (a float) within 1e-9 of the model's exact fraction `num/den`"""
+    if out.startswith('err') or m.startswith('err') or not out or not m:
+        return out == m
+    po, pm = out.split(';'), m.split(';')
+    if len(po) != len(pm):
+        return False
+    for x, y in zip(po, pm):
+        hx, sx = x.rsplit(':', 1)
+        hy, sy = y.rsplit(':', 1)
+        n, d = sy.split('/')
+        if hx != hy or sx.startswith('bad') or int(d) == 0 or abs(float(sx) - int(n) / int(d)) > 1e-9:
+            return False
+    return True
 
 
 def run_query(impl, q):
@@ -222,9 +228,14 @@ def correspond(ctx):
     import inspect
     from recognizers_choice.choice.models import ChoiceModel
     parse_init = 'parse_results = []' in inspect.getsource(ChoiceModel.parse)
-    v_env = '+'.join([v_offset] + (['miss1'] if miss == 1 else []) + ([] if parse_init else ['noinit']))
+    # ChoiceParser.parse: hands on the extractor's score (after boolean-score-from-extractor.diff: `yes` alone scores
+    # 1.0), or reports the default 0.0 of a freshly built ChoiceExtractDataResult (before)
+    yes = impl.rec('yes')
+    keeps_score = not (yes and yes[0].resolution.get('score') == 0.0)
+    v_env = '+'.join([v_offset] + (['miss1'] if miss == 1 else []) + ([] if parse_init else ['noinit']) +
+                     ([] if keeps_score else ['pscore0']))
     ctx.extra['variants'] = {'remove_unicode_matches': v_rewrite, 'span_offset': v_offset, 'index_of_miss': miss,
-                             'parse_results_initialised': parse_init}
+                             'parse_results_initialised': parse_init, 'parser_keeps_extractor_score': keeps_score}
     tw, te = alternatives(res.TrueRegex)
     fw, fe = alternatives(res.FalseRegex)
     ctx.extra['alternatives'] = {'true_words': tw, 'true_emoji': te, 'false_words': fw, 'false_emoji': fe}
@@ -349,8 +360,7 @@ def correspond(ctx):
     ctx.count('model-vs-recognize_boolean', len(lines))
     for q, m in zip(queries, model):
         _, out = run_query(impl, q)
-        m = model_rec(m)
-        if out != m:
+        if not same_rec(out, m):
             ctx.report('correspondence', 'recognise', 'recognize_boolean(%r): implementation %s, model %s' % (q, out, m),
                        failing_input={'op': 'bool.rec', 'query': q, 'implementation': out, 'model': m})
     ctx.sample({'op': lines[7], 'implementation': run_query(impl, queries[7])[1]})
@@ -406,8 +416,8 @@ def correspond(ctx):
         if not ok:
             ctx.report('correspondence', 'unit-match_value', '%s: implementation %r, model %s' % (l, a, b),
                        failing_input={'op': l, 'implementation': a, 'model': b})
-    # the helper can leave [0,1] (negative theorem matchValue_can_exceed_one): replayed, recorded, not a finding —
-    # the reported score is the parser's default 0.0
+    # before /repo 4afb7c9b1 the helper could leave [0,1] (regression theorem prefix_matchValue_can_exceed_one): replayed
+    # and recorded
     ctx.extra['match_value_witness'] = {'args': [['a'], ['x', 'x', 'x'], 0],
                                         'implementation': impl.extractor.match_value(['a'], ['x', 'x', 'x'], 0)}
     # extract
